@@ -423,6 +423,13 @@ def check_datagroup_histories(run, tree):
         got = (list(k), [kk for kk, _ in it], [getattr(v, "origin", None) for v in vs])
         return got == (["c"], ["c"], ["c"]), "views taken before clear() show keys %s, items %s, values %s (required c)" % got
 
+    @hist("update(mapping, **keywords) behaves like dict.update: mapping items first, then the keywords, a keyword winning over the mapping for the same key",
+          "group.update({'a': x, 'b': y}, b=z, c=w) ends with b from the mapping, or inserts the keywords before the mapping items")
+    def h21(g, do):
+        call_method(tree, hooks, g, "update", {"a": A("x1", 3), "b": A("x2", 3)}, b=A("x3", 3), c=A("x4", 3))
+        st = group_state(tree, hooks, g)
+        return [(k, v[0]) for k, v in st.items()] == [("a", "x1"), ("b", "x3"), ("c", "x4")], "state %s" % [(k, v[0]) for k, v in st.items()]
+
     def construct_group(*args, **kwargs):
         ev = _ev(tree, hooks, DG_Q + ".__init__")
         try:
@@ -655,6 +662,7 @@ def check_group_indexing(run, tree):
                  ("strided slice", slice(None, None, 2), slice_key((4,), slice(None, None, 2))),
                  ("boolean mask (ndarray)", RawTok("mask", (4,)), "mask"), ("mask given as an Array", ArrTok("amask", "dimensionless", (4,)), None),
                  ("integer index array", RawTok("perm", (4,)), "perm"),
+                 ("python list of row numbers", [2, 0], [2, 0]), ("empty python list (selects no row: every member stays, with zero rows)", [], []),
                  # members with several values per row ((3, 4) grids): a full boolean mask selects ELEMENTS of every member alike
                  ("N-d boolean mask on N-d members", RawTok("mask2d", (3, 4), _bool_dtype()), "mask2d")]
     for label, idx, key, comp in [c + (m,) for c in idx_cases for m in COMPOSITIONS]:
@@ -921,6 +929,20 @@ def check_dataset_histories(run, tree):
         got = (list(k), [kk for kk, _ in it], [v is g for v in vs])
         return got == (["b"], ["b"], [True]), "views taken before clear() show keys %s, items %s, values-are-the-new-group %s" % got
 
+    @case("update(mapping, **keywords) behaves like dict.update: mapping items first, then the keywords, a keyword winning over the mapping for the same key",
+          "ds.update({'a': g1, 'b': g2}, b=g3, c=g4) ends with b from the mapping, or inserts the keywords before the mapping items")
+    def c9():
+        ds = new_ds()
+        g = {k: new_group(tree, hooks) for k in ("a", "b-map", "b-kw", "c")}
+        call_method(tree, hooks, ds, "update", {"a": g["a"], "b": g["b-map"]}, b=g["b-kw"], c=g["c"])
+        cont = ds._attrs["groups"]
+        ok = list(cont) == ["a", "b", "c"] and cont.get("b") is g["b-kw"] and cont.get("a") is g["a"] and cont.get("c") is g["c"]
+        ds2 = new_ds()
+        call_method(tree, hooks, ds2, "update", [("x", g["a"]), ("y", g["c"])])
+        ok2 = list(ds2._attrs["groups"]) == ["x", "y"]
+        return ok and ok2, "after update({'a','b'}, b=, c=): keys %s, b is the %s; update(list of pairs): keys %s" % (
+            list(cont), "keyword's group" if cont.get("b") is g["b-kw"] else "mapping's group", list(ds2._attrs["groups"]))
+
     for label, family, fn in cases:
         construct = "%s::history[%s]" % (DS_Q, label)
         try:
@@ -959,6 +981,9 @@ def check_vector_wrap_numpy(run, tree):
         cases.append(("Vector and number, %d components" % n, n, lambda v, w: [F, v, 2.0], {}, lambda c: ("F", "f", ("v." + c, 2.0), ())))
         cases.append(("sequence of Vectors, %d components" % n, n, lambda v, w: [F, [v, w]], {}, lambda c: ("F", "f", (("v." + c, "w." + c),), ())))
         cases.append(("sequence + extra argument, %d components" % n, n, lambda v, w: [F, (v, w), 0], {}, lambda c: ("F", "f", (("v." + c, "w." + c), 0), ())))
+        # every further positional argument reaches the function, in order (np.isclose(v, w, rtol, atol), np.clip(v, lo, hi), np.where(v, a, b))
+        cases.append(("two Vectors + two positional arguments, %d components" % n, n, lambda v, w: [F, v, w, 0.25, 0.5], {}, lambda c: ("F", "f", ("v." + c, "w." + c, 0.25, 0.5), ())))
+        cases.append(("Vector + three positional arguments, %d components" % n, n, lambda v, w: [F, v, 1.5, 2.5, 3.5], {"k": 1}, lambda c: ("F", "f", ("v." + c, 1.5, 2.5, 3.5), (("k", 1),))))
     for label, n, mk, kw, want_f in cases:
         construct = "%s._wrap_numpy[%s]" % (VECTOR_Q, label)
         try:
